@@ -50,6 +50,11 @@ func (x *Ext) purify(sum *Summary) {
 		switch e.Kind {
 		case "store":
 			rootsIn(e.Root, written)
+			// a reference stored into another object escapes with it (a slice put into a parameter object that is
+			// handed to goroutines): whoever reaches that object may write through it
+			if e.Val != nil && (e.Val.Ty == TRef || e.Val.Ty == TOther || e.Val.Ty == TTuple) {
+				rootsIn(e.Val, written)
+			}
 		case "call", "go", "defer":
 			if calleeMayWrite(e.Callee) {
 				for _, a := range e.Args {
